@@ -376,6 +376,93 @@ theorem same_dtype_exact (t : DType) (size : Nat) (r : Range) (e : Endian) (x : 
 example : ElemOK (⟨.complex, 4, 2⟩ : DType).cw (⟨.complex, 4, 2⟩ : DType).k [0x7fc00001, 0xff800000] :=
   ⟨rfl, by decide⟩
 
+
+/-! ### the shape fields of the header -/
+
+/-- `shape_roundtrip`: whatever shape `set_data_shape` accepts, `get_data_shape` gives back — except,
+    for NIfTI-1, a shape that begins (27307, 1, 6), which is the stored form of the ico7 convention -/
+theorem shape_roundtrip (r : ShapeRule) (dimMax glminMax : Nat) (shape : List Nat) (f : ShapeFields)
+    (halias : r = .nifti1 → shape.take 3 ≠ [27307, 1, 6])
+    (hset : setShape r dimMax glminMax shape = .ok f) :
+    getShape r f = .ok (natsToInts shape) := by
+  cases r with
+  | analyze => simp only [setShape] at hset; rw [storeDims_ok _ _ _ _ hset]; rfl
+  | nifti2 => simp only [setShape] at hset; rw [storeDims_ok _ _ _ _ hset]; rfl
+  | nifti1 =>
+    have hal := halias rfl
+    simp only [setShape] at hset
+    split at hset
+    · next h1 =>
+      rw [storeDims_ok _ _ _ _ hset]
+      have : shape = [163842, 1, 1] ++ shape.drop 3 := by
+        conv => lhs; rw [← List.take_append_drop 3 shape, h1]
+      rw [this]
+      simp [getShape, natsToInts]
+    · next h1 =>
+      split at hset
+      · next h2 =>
+        obtain ⟨hlen, h11, hbig⟩ := h2
+        split at hset
+        · cases hset
+        · rw [storeDims_ok _ _ _ _ hset]
+          match shape, hlen, h11, hbig with
+          | a :: b :: c :: rest, _, h11, hbig =>
+            simp at h11
+            obtain ⟨hb, hc⟩ := h11
+            subst hb; subst hc
+            simp at hbig
+            have ha : a ≠ 0 := by omega
+            simp [getShape, natsToInts, ha]
+      · next h2 =>
+        rw [storeDims_ok _ _ _ _ hset]
+        unfold getShape
+        simp only []
+        have hneg : (natsToInts shape).take 3 ≠ [-1, 1, 1] := by
+          rw [natsToInts_take]
+          intro h
+          match hs : shape.take 3, h with
+          | [], h => simp [natsToInts] at h
+          | x :: _, h => simp [natsToInts] at h
+        have hico : (natsToInts shape).take 3 ≠ [27307, 1, 6] := by
+          rw [natsToInts_take]
+          intro h
+          exact hal (natsToInts_inj _ [27307, 1, 6] h)
+        rw [if_neg hneg, if_neg hico]
+
+-- non-vacuity: an ordinary shape, the ico7 convention, the long-vector convention (N > 32767 in `glmin`)
+example : setShape .nifti1 32767 2147483647 [2, 1, 3] = .ok ⟨[2, 1, 3], 0⟩ := rfl
+example : setShape .nifti1 32767 2147483647 [163842, 1, 1, 2] = .ok ⟨[27307, 1, 6, 2], 0⟩ := rfl
+example : setShape .nifti1 32767 2147483647 [131072, 1, 1] = .ok ⟨[-1, 1, 1], 131072⟩ := rfl
+example : getShape .nifti1 ⟨[-1, 1, 1], 131072⟩ = .ok (natsToInts [131072, 1, 1]) :=
+  shape_roundtrip .nifti1 32767 2147483647 [131072, 1, 1] _ (by decide) rfl
+example : setShape .analyze 32767 2147483647 [32768, 1, 1] = .error .headerData := rfl
+
+/-- FINDING `nifti1:ico7-shape-alias`: a NIfTI-1 image whose shape begins (27307, 1, 6) is stored like the
+    FreeSurfer ico7 convention stores (163842, 1, 1) and is therefore loaded with THAT shape (same number of
+    elements, different shape); NIfTI-2 keeps it -/
+theorem nifti1_ico7_alias_counterexample :
+    setShape .nifti1 32767 2147483647 [27307, 1, 6] = .ok ⟨[27307, 1, 6], 0⟩ ∧
+    getShape .nifti1 ⟨[27307, 1, 6], 0⟩ = .ok [163842, 1, 1] ∧
+    getShape .nifti2 ⟨[27307, 1, 6], 0⟩ = .ok [27307, 1, 6] := by
+  refine ⟨rfl, rfl, rfl⟩
+
+/-- the regenerated limits of the `dim` / `glmin` fields are the ones the examples above use, and every
+    writable Analyze-family class has a shape rule the model knows -/
+theorem shape_rules_generated :
+    (∀ en ∈ Gen.shapeRules, (en.2.1 = "analyze" ∨ en.2.1 = "nifti1" ∨ en.2.1 = "nifti2") ∧
+      (en.2.1 ≠ "nifti2" → en.2.2.1 = 32767) ∧ (en.2.1 = "nifti1" → en.2.2.2 = 2147483647)) ∧
+    (∀ c ∈ Gen.classes, c.2.1 ≠ "mgh" → ∃ en ∈ Gen.shapeRules, en.1 = c.1) := by
+  decide
+
+/-- the hand-typed MGH constants of the model are the regenerated ones: `MGHImage` is the only class of
+    layout "mgh"; its data offset (`DATA_OFFSET` of mghformat.py) is `mghDataOffset` and the header bytes
+    `writehdr_to` really writes fit before it (hypothesis `hhdr` of `mgh_layout`), so `mgh_layout` speaks
+    about the offsets of the working tree -/
+theorem mgh_constants_generated :
+    (∀ c ∈ Gen.classes, c.2.1 = "mgh" → c.1 = "MGHImage" ∧ c.2.2.1 ≤ mghDataOffset ∧ c.2.2.2.1 = mghDataOffset) ∧
+    (∃ c ∈ Gen.classes, c.2.1 = "mgh") := by
+  decide
+
 /-! ### codec choice by file name (over the regenerated tables) -/
 
 /-- `ImageOpener.compress_ext_map` as regenerated from the source -/
